@@ -23,7 +23,22 @@ static int check(var t, const char* what, int* ins, int* del, int ndel) {
   return ok;
 }
 static int next_perm(int* a, int n) { int i = n - 2; while (i >= 0 && a[i] > a[i + 1]) i--; if (i < 0) return 0; int j = n - 1; while (a[j] < a[i]) j--; int t = a[i]; a[i] = a[j]; a[j] = t; for (int l = i + 1, r = n - 1; l < r; l++, r--) { t = a[l]; a[l] = a[r]; a[r] = t; } return 1; }
+/* balance, through the public API only: a key type whose Cmp counts its calls - the comparisons one lookup makes are the depth of the key */
+static long cmp_calls = 0;
+struct CKey { int64_t v; };
+static int CKey_Cmp(var a, var b) { cmp_calls++; int64_t x = ((struct CKey*)a)->v, y = ((struct CKey*)cast(b, type_of(a)))->v; return x < y ? -1 : x > y; }
+static uint64_t CKey_Hash(var a) { return (uint64_t)((struct CKey*)a)->v; }
+var CKey = Cello(CKey, Instance(Cmp, CKey_Cmp), Instance(Hash, CKey_Hash));
+static int balanced_after(int n, int descending) {
+  var t = new(Tree, CKey, Int); int worst = 0;
+  for (int i = 1; i <= n; i++) { struct CKey k = { descending ? n + 1 - i : i }; set(t, $(CKey, k.v), $I(i)); }
+  for (int i = 1; i <= n; i++) { cmp_calls = 0; get(t, $(CKey, i)); if (cmp_calls > worst) worst = (int)cmp_calls; }
+  int bound = 2; for (int m = n + 1; m > 1; m /= 2) bound += 2;       /* 2*log2(n+1) + 2 */
+  if (worst > bound) { printf("REPRODUCED: after %d %s insertions one lookup makes %d comparisons: the tree is deeper than 2*log2(n+1) (bound %d)\n", n, descending ? "descending" : "ascending", worst, bound); return 0; }
+  del(t); return 1;
+}
 int main(int argc, char** argv) {
+  if (!balanced_after(200, 0) || !balanced_after(200, 1) || !balanced_after(14, 0)) return 1;
   int ins[NK]; for (int i = 0; i < NK; i++) ins[i] = i;
   long seqs = 0;
   do {
